@@ -1,5 +1,6 @@
 import TFV.Properties.BinOps
 import TFV.Properties.Runs
+import TFV.Properties.Src.BinKernels
 #print axioms TFV.BinOps.C06_cross_parentage
 #print axioms TFV.BinOps.C06_cross_binary
 #print axioms TFV.BinOps.C06_empty
@@ -17,3 +18,8 @@ import TFV.Properties.Runs
 #print axioms TFV.BinOps.C06_shaga_closed
 #print axioms TFV.Runs.C06_run_binary
 #print axioms TFV.Runs.C06_run_binary_shaga
+#print axioms TFV.SrcTie.C06_src_flip_mutation
+#print axioms TFV.SrcTie.C06_src_binomialGA
+#print axioms TFV.SrcTie.C06_src_one_point_crossover
+#print axioms TFV.SrcTie.C06_src_two_point_crossover
+#print axioms TFV.SrcTie.C06_src_uniform_crossover
